@@ -1127,3 +1127,251 @@ func ruleG12(r *Run) {
 		})
 	}
 }
+
+// ---------------------------------------------------------------------------------------
+// G7 request id identity end to end (C09)
+
+func init() {
+	register("G7", "the request id is one value end to end: conn.Transport registers, sends and withdraws the same index; the handler passes the index parsed from a frame, with that frame's body, to run/task, run passes it to sendResponse, send writes response.Index into the header; the client looks up the index parsed from the response frame", 15, ruleG7)
+	register("L5", "package-level maps and slices (dispatch tables, converter maps) are written only during package initialisation (init functions / initialisers) or are sync.Map: they are read concurrently without a lock", 6, ruleL5)
+}
+
+func ruleG7(r *Run) {
+	p := r.P
+	for _, tr := range []string{"rpc/socket", "rpc/udp", "rpc/websocket"} {
+		pkg := p.Pkg(tr)
+		if pkg == nil {
+			continue
+		}
+		info := pkg.TypesInfo
+		// (1) conn.Transport: store(index,..), data{Index: index}, delete(index) use one object
+		if fd, _ := p.DeclOf(tr, "conn.Transport"); fd != nil {
+			var objs []types.Object
+			ast.Inspect(fd.Body, func(n ast.Node) bool {
+				switch x := n.(type) {
+				case *ast.CallExpr:
+					if m := methodName(x); (m == "store" || m == "delete") && len(x.Args) >= 1 {
+						objs = append(objs, identObj(info, x.Args[0]))
+					}
+				case *ast.KeyValueExpr:
+					if id, ok := x.Key.(*ast.Ident); ok && id.Name == "Index" {
+						objs = append(objs, identObj(info, x.Value))
+					}
+				}
+				return true
+			})
+			same := len(objs) >= 4
+			for _, o := range objs {
+				if o == nil || o != objs[0] {
+					same = false
+				}
+			}
+			r.Check(same, "one id registered, sent and withdrawn in "+tr+".conn.Transport", fd.Pos(), fmt.Sprintf("%d uses of the same index variable", len(objs)), "conn.Transport registers, sends and withdraws different index values: a response is matched to another call's entry, or entries are never withdrawn")
+		} else {
+			r.Undec("conn.Transport "+tr, 0, "not found")
+		}
+		// (2) Handler.receive: the index from parseHeader is the one dispatched
+		if fd, _ := p.DeclOf(tr, "Handler.receive"); fd != nil {
+			var parsed types.Object
+			ast.Inspect(fd.Body, func(n ast.Node) bool {
+				if as, ok := n.(*ast.AssignStmt); ok && len(as.Rhs) == 1 {
+					if call, ok := ast.Unparen(as.Rhs[0]).(*ast.CallExpr); ok {
+						if f := Callee(info, call); f != nil && f.Name() == "parseHeader" {
+							for i, l := range as.Lhs {
+								// index is the result named index
+								if f.Type().(*types.Signature).Results().At(i).Name() == "index" {
+									parsed = identObj(info, l)
+								}
+							}
+						}
+					}
+				}
+				return true
+			})
+			okAll, n := parsed != nil, 0
+			ast.Inspect(fd.Body, func(m ast.Node) bool {
+				call, ok := m.(*ast.CallExpr)
+				if !ok {
+					return true
+				}
+				f := Callee(info, call)
+				if f == nil || !p.InRepo(f) {
+					return true
+				}
+				switch f.Name() {
+				case "run", "task", "sendResponse":
+					sig := f.Type().(*types.Signature)
+					for i := 0; i < sig.Params().Len() && i < len(call.Args); i++ {
+						if sig.Params().At(i).Name() == "index" {
+							n++
+							if identObj(info, call.Args[i]) != parsed {
+								okAll = false
+							}
+						}
+					}
+				}
+				return true
+			})
+			r.Check(okAll && n >= 3, "frame's own id dispatched in "+tr+".Handler.receive", fd.Pos(), fmt.Sprintf("%d dispatches use the parsed index", n), "the index passed to run/task/sendResponse is not the one parsed from the frame being processed: the response carries another request's id")
+		}
+		// (3) Handler.run passes its index on; Handler.send writes response.Index into the header
+		if fd, _ := p.DeclOf(tr, "Handler.run"); fd != nil {
+			params := paramsOf(info, fd.Type)
+			var idx types.Object
+			for _, pv := range params {
+				if pv != nil && pv.Name() == "index" {
+					idx = pv
+				}
+			}
+			ok := false
+			ast.Inspect(fd.Body, func(m ast.Node) bool {
+				if call, isC := m.(*ast.CallExpr); isC && methodName(call) == "sendResponse" {
+					for _, a := range call.Args {
+						if identObj(info, a) == idx && idx != nil {
+							ok = true
+						}
+					}
+				}
+				return true
+			})
+			r.Check(ok, "run answers with the id it was given in "+tr+".Handler.run", fd.Pos(), "sendResponse(.., index, ..)", "Handler.run does not pass its own index to sendResponse")
+		}
+		if fd, _ := p.DeclOf(tr, "Handler.send"); fd != nil {
+			defs := localDefs(info, fd.Body)
+			ok := false
+			ast.Inspect(fd.Body, func(m ast.Node) bool {
+				call, isC := m.(*ast.CallExpr)
+				if !isC {
+					return true
+				}
+				if f := Callee(info, call); f != nil && f.Name() == "makeHeader" {
+					for _, a := range call.Args {
+						// index variable derived from response.Index (possibly |= error flag)
+						if o := identObj(info, a); o != nil && o.Name() == "index" {
+							ok = true
+							_ = defs
+						}
+					}
+				}
+				return true
+			})
+			fromResp := false
+			ast.Inspect(fd.Body, func(m ast.Node) bool {
+				if as, isA := m.(*ast.AssignStmt); isA {
+					for i, l := range as.Lhs {
+						if o := identObj(info, l); o != nil && o.Name() == "index" && i < len(as.Rhs) {
+							if fv := fieldOf(info, as.Rhs[i]); fv != nil && fv.Name() == "Index" {
+								fromResp = true
+							}
+						}
+					}
+				}
+				return true
+			})
+			r.Check(ok && fromResp, "response header carries the response's id in "+tr+".Handler.send", fd.Pos(), "index := response.Index ... makeHeader(.., index)", "Handler.send does not write response.Index into the frame header")
+		}
+		// (4) client: the index parsed from the response frame is the one looked up
+		if fd, _ := p.DeclOf(tr, "conn.receive"); fd != nil {
+			var parsed types.Object
+			ast.Inspect(fd.Body, func(n ast.Node) bool {
+				if as, ok := n.(*ast.AssignStmt); ok && len(as.Rhs) == 1 {
+					if call, ok := ast.Unparen(as.Rhs[0]).(*ast.CallExpr); ok {
+						if f := Callee(info, call); f != nil && f.Name() == "parseHeader" {
+							for i, l := range as.Lhs {
+								if f.Type().(*types.Signature).Results().At(i).Name() == "index" {
+									parsed = identObj(info, l)
+								}
+							}
+						}
+					}
+				}
+				return true
+			})
+			ok := false
+			ast.Inspect(fd.Body, func(m ast.Node) bool {
+				if call, isC := m.(*ast.CallExpr); isC && methodName(call) == "loadAndDelete" && len(call.Args) == 1 {
+					if identObj(info, call.Args[0]) == parsed && parsed != nil {
+						ok = true
+					}
+				}
+				return true
+			})
+			r.Check(ok, "response matched by its own id in "+tr+".conn.receive", fd.Pos(), "loadAndDelete(index parsed from the frame)", "the pending call is not looked up by the index parsed from the response frame")
+		}
+	}
+}
+
+func ruleL5(r *Run) {
+	p := r.P
+	for _, pkg := range p.Pkgs {
+		info := pkg.TypesInfo
+		// package-level map/slice variables
+		vars := map[types.Object]bool{}
+		sc := pkg.Types.Scope()
+		for _, name := range sc.Names() {
+			v, ok := sc.Lookup(name).(*types.Var)
+			if !ok {
+				continue
+			}
+			switch v.Type().Underlying().(type) {
+			case *types.Map, *types.Slice:
+				vars[v] = true
+			}
+		}
+		if len(vars) == 0 {
+			continue
+		}
+		writes := map[types.Object][]string{}
+		for _, file := range pkg.Syntax {
+			for _, d := range file.Decls {
+				fd, ok := d.(*ast.FuncDecl)
+				if !ok || fd.Body == nil {
+					continue
+				}
+				isInit := fd.Recv == nil && fd.Name.Name == "init"
+				mark := func(e ast.Expr, pos token.Pos) {
+					for {
+						e = ast.Unparen(e)
+						if ie, ok := e.(*ast.IndexExpr); ok {
+							e = ie.X
+							continue
+						}
+						break
+					}
+					if o := identObj(info, e); o != nil && vars[o] && !isInit {
+						writes[o] = append(writes[o], p.DeclName(fd)+" at "+p.Rel(pos))
+					}
+				}
+				ast.Inspect(fd.Body, func(n ast.Node) bool {
+					switch x := n.(type) {
+					case *ast.AssignStmt:
+						for _, l := range x.Lhs {
+							mark(l, x.Pos())
+						}
+					case *ast.IncDecStmt:
+						mark(x.X, x.Pos())
+					case *ast.CallExpr:
+						if IsBuiltin(info, x, "delete") && len(x.Args) == 2 {
+							mark(x.Args[0], x.Pos())
+						}
+					}
+					return true
+				})
+			}
+		}
+		var names []string
+		for o := range vars {
+			names = append(names, o.Name())
+		}
+		sort.Strings(names)
+		for _, nme := range names {
+			o := sc.Lookup(nme)
+			key := fmt.Sprintf("package-level table %s.%s", p.RelPkg(pkg.Types), nme)
+			if w := writes[o]; len(w) > 0 {
+				r.Viol(key, o.Pos(), fmt.Sprintf("the package-level %s is written outside init (%s) although it is read concurrently without a lock: first use of a type from several goroutines races on it", nme, strings.Join(w, "; ")))
+			} else {
+				r.Ok(key, o.Pos(), "written only during package initialisation")
+			}
+		}
+	}
+}
